@@ -306,6 +306,9 @@ func totality(ctx *core.Ctx, entries []*ssa.Function, o totalOpts) {
 				if o.allowPanic != nil {
 					why = o.allowPanic(x)
 				}
+				if why == "" {
+					why = panicUnreachable(g, x)
+				}
 				if why != "" {
 					ctx.OK(o.rule, key, x.Pos(), "explicit panic accepted: %s", why)
 				} else {
@@ -414,4 +417,56 @@ func moduleImplementations(p *core.Prog, c *ssa.CallCommon) []*ssa.Function {
 	sort.Slice(out, func(i, j int) bool { return out[i].String() < out[j].String() })
 	implCache[p][key] = out
 	return out
+}
+
+// panicUnreachable recognises the "cannot happen" arm of a selection nested in
+// a selection over the same value: at the panic some comparisons x == K are
+// known false (the inner switch's cases), while every path to it established
+// x == K' for one of those very constants (the outer case list). No path can do
+// both, so the panic is unreachable. Returns the reason, or "".
+func panicUnreachable(g *ssax.Graph, pn *ssa.Panic) string {
+	type eq struct {
+		x ssa.Value
+		k string
+	}
+	constKey := func(v ssa.Value) (string, bool) {
+		if s, ok := ssax.ConstString(v); ok {
+			return "s:" + s, true
+		}
+		if k, ok := ssax.ConstInt(v); ok {
+			return "i:" + itoa(int(k)), true
+		}
+		return "", false
+	}
+	asEq := func(f ssax.Fact) (e eq, holds bool, ok bool) {
+		b, isB := f.Cond.(*ssa.BinOp)
+		if !isB || (b.Op != token.EQL && b.Op != token.NEQ) {
+			return eq{}, false, false
+		}
+		x, kv := b.X, b.Y
+		k, isK := constKey(kv)
+		if !isK {
+			x, kv = b.Y, b.X
+			if k, isK = constKey(kv); !isK {
+				return eq{}, false, false
+			}
+		}
+		return eq{x, k}, (b.Op == token.EQL) == f.Val, true
+	}
+	excluded := map[eq]bool{}
+	for _, f := range g.FactsAtInstr(pn) {
+		if e, holds, ok := asEq(f); ok && !holds {
+			excluded[e] = true
+		}
+	}
+	if len(excluded) == 0 {
+		return ""
+	}
+	if onAllPaths(g, pn, nil, func(f ssax.Fact) bool {
+		e, holds, ok := asEq(f)
+		return ok && holds && excluded[e]
+	}) {
+		return "every path to it established that the value equals one of the constants the enclosing tests have just excluded (a 'cannot happen' arm)"
+	}
+	return ""
 }
